@@ -210,6 +210,7 @@ def c02(ctx):
 def c03(ctx):
     model_check(ctx, "MCVerify.tla", "MCVerify_quick.cfg")   # includes HonestAccepted: S = r + h a is accepted in both modes
     sign_family(ctx, list(vlib.CONFIGS) if ctx.thorough else ("default", "force32bit"))
+    batch_extra(ctx)     # all-valid batches of every size (library-made signatures, same-signer runs across chunk boundaries)
     finish(ctx, "every signature produced by the sign driver is verified by Verify, VerifyWithOptions (default and ZIP-215) and as a member of batches of size 1,3,4,5,64,65,129 "
            "(every member position), each verdict validated by TLC through the Verify pipeline with the signer's coordinates (a, r); sign events additionally require S < L, a != 0, r != 0", SIGN_ASSUME)
 
@@ -344,7 +345,7 @@ def num_class(ev):
     if op == "scalar":
         return "scalar|%s|%s|%s" % (ev["layout"], ev["f"], ev.get("w", ev.get("ls", "")))
     if op == "group":
-        return "group|%s|%s" % (ev["f"], "pos=%s,b=%s" % (ev["pos"], ev["b"]) if ev["f"] == "choose" else ev.get("pt", ""))
+        return "group|%s|%s" % (ev["f"], "pos=%s,b=%s" % (ev["pos"], ev["b"]) if ev["f"] == "choose" else ev.get("pt", ev.get("i", "")))
     return op
 
 
